@@ -315,8 +315,8 @@ func c10signTests(f *flow.Func, root ast.Node, fld *types.Var) []c10sign {
 		op := be.Op
 		zero := func(e ast.Expr) bool { v, ok := c10constFloat(f, e); return ok && v == 0 }
 		switch {
-		case c10fieldSel(f, x, fld) && zero(be.Y):
-		case c10fieldSel(f, y, fld) && zero(be.X):
+		case c10fieldSel(f, c10alias(f, root, x), fld) && zero(be.Y):
+		case c10fieldSel(f, c10alias(f, root, y), fld) && zero(be.X):
 			// mirror: 0 OP fld  ≡  fld OP' 0
 			switch op {
 			case token.LSS:
